@@ -1,9 +1,9 @@
 //! C10: hash values (CBOR / hex), the byte streams the Hasher hands to Blake2b, nonce compositions.
-//! fn: pallas_crypto::hash::Hash::<N> minicbor Decode / Encode (N = 28, 32), Display / FromStr (N = 2)
+//! fn: pallas_crypto::hash::Hash::<N> minicbor Decode / Encode (N = 28, 32), FromStr (N = 2)
 //! fn: pallas_crypto::hash::Hasher::<256|224>::{new,input,finalize,hash,hash_tagged,hash_cbor,hash_tagged_cbor} and its minicbor Write impl
 //! fn: pallas_crypto::nonce::{generate_epoch_nonce,generate_rolling_nonce}
 //! stub: cryptoxide::blake2b::Blake2b::new, <Blake2b as Digest>::input, <Blake2b as Digest>::result -> stream probe: the "digest" is (stream length, stream[J0], stream[J1], output size) for two harness-global symbolic positions J0, J1; two digests agree for every J0, J1 iff the byte streams fed to the two hashers (and, one nesting level down, to the hashers whose digests were fed in) are identical. Only on the *_stream_* / *_nonce_* harnesses.
-//! outside: "the digest equals RFC 7693 Blake2b of the stream" (cryptoxide is trusted; a one-block symbolic Blake2b compression exhausted goto-instrument at 24 GB); streams longer than the stated bounds; serde (hex) impl in hash/serde.rs
+//! outside: "the digest equals RFC 7693 Blake2b of the stream" (cryptoxide is trusted; a one-block symbolic Blake2b compression exhausted goto-instrument at 24 GB); streams longer than the stated bounds; serde (hex) impl in hash/serde.rs; the Display (hex::encode -> String) leg: attempted for Hash<2> (to_string then from_str), CBMC ran out of memory (16 GB) in array post-processing, so only FromStr is decided
 //! assume: stream equalities are asserted as digest equalities between the function under test and a one-shot Hasher::hash of the hand-concatenated stream, which is also true natively
 use pallas_codec::minicbor;
 use pallas_crypto::hash::{Hash, Hasher};
@@ -127,33 +127,6 @@ cbor_roundtrip!(c10_q_cbor_roundtrip_32, 32);
 // ---------------------------------------------------------------------------------------------
 // hex (same generic code for every N; N = 2 instantiation)
 // ---------------------------------------------------------------------------------------------
-fn hexd(x: u8) -> u8 {
-    if x < 10 {
-        b'0' + x
-    } else {
-        b'a' + (x - 10)
-    }
-}
-
-/// bound: Hash<2> with symbolic bytes: Display -> String is the lowercase hex, FromStr of it gives the hash back; unwind 8
-#[kani::proof]
-#[kani::unwind(8)]
-#[kani::stub(std::fmt::format, crate::stubs::fmt_format_stub)]
-fn c10_t_hex_display_fromstr_2() {
-    use std::str::FromStr;
-    let p: [u8; 2] = kani::any();
-    let h = Hash::<2>::new(p);
-    let s = h.to_string();
-    let sb = s.as_bytes();
-    assert!(sb.len() == 4, "two hex digits per byte");
-    assert!(sb[0] == hexd(p[0] >> 4) && sb[1] == hexd(p[0] & 15) && sb[2] == hexd(p[1] >> 4) && sb[3] == hexd(p[1] & 15), "lowercase hex");
-    let r = Hash::<2>::from_str(&s);
-    assert!(matches!(&r, Ok(h2) if h2.as_ref()[0] == p[0] && h2.as_ref()[1] == p[1]), "parse(display(h)) == h");
-    kani::cover!(p[0] == 0xaf, "letters and digits");
-    core::mem::forget(r);
-    core::mem::forget(s);
-}
-
 /// bound: FromStr on 4 symbolic hex digits (either case) / wrong lengths 2 and 6; unwind 8
 #[kani::proof]
 #[kani::unwind(8)]
